@@ -324,6 +324,11 @@ def gen_clockwork_world(seed, index, **over):
         for b in sizes:
             ex.append({"batch_size": b, "runtime": base + {1: 0, 2: rng.randint(1, 2), 4: rng.randint(2, 4)}[b],
                        "resource_requirements": {"GPU:any": 1}})
+        if over.get("exec_needs_ram"):
+            # batches then compete with model loads for the same memory: a load and a batch decided in one invocation may
+            # not both fit when they are applied, and the batch's placement is retried by the simulator
+            for e in ex:
+                e["resource_requirements"]["RAM:any"] = 1
         profiles.append({"name": f"M{m}",
                          "loading_strategies": [{"batch_size": 1, "runtime": rng.randint(0, 3),
                                                  "resource_requirements": {"RAM:any": rng.randint(1, 3)}}],
@@ -378,6 +383,9 @@ def gen_clockwork_world(seed, index, **over):
         "clockwork_goal": rng.choice(["clockwork", "least_slack"]),
         "unique_work_profiles": True,
     }
+    if over.get("exec_needs_ram"):
+        # accepted by every policy's constructor; the Clockwork policy ignores it (a request is placed once)
+        flags["retract_schedules"] = rng.random() < 0.8
     preload = rng.random() < over.get("p_preload", 0.5)
     flags["scheduler_run_load"] = not preload
     for k, v in over.get("flags", {}).items():
